@@ -108,7 +108,7 @@ func (p *idsPeer) respond(req *frame.Frame, page int, final bool) {
 	}
 	if p.modern && p.responses%3 == 1 {
 		size := 135000 + 1777*p.responses
-		f.Body.Message.(*message.RowsResult).Data = message.RowSet{{gen.Payload(size, "text")}}
+		f.Body.Message.(*message.RowsResult).Data[0] = message.Row{gen.Payload(size, "text")}
 		env := envelope(f)
 		var parts []int
 		for rem := len(env); rem > 0; rem -= refseg.MaxPayload {
@@ -138,11 +138,18 @@ func dse(v primitive.ProtocolVersion) bool {
 // page (page number, last flag); elsewhere every response is final.
 func pageFor(v primitive.ProtocolVersion, id int16, tag string, page int, final bool) *frame.Frame {
 	md := &message.RowsMetadata{ColumnCount: 1, PagingState: []byte(tag)}
+	data := message.RowSet{{[]byte("x")}}
 	if dse(v) {
 		md.ContinuousPageNumber = int32(page)
 		md.LastContinuousPage = final
+		if page%2 == 1 {
+			// odd continuous pages carry no paging state, final or not (the last page is the one that says
+			// so); their tag travels in a second row (tagOf)
+			md.PagingState = nil
+			data = append(data, message.Row{[]byte(tag)})
+		}
 	}
-	return frame.NewFrame(v, id, &message.RowsResult{Metadata: md, Data: message.RowSet{{[]byte("x")}}})
+	return frame.NewFrame(v, id, &message.RowsResult{Metadata: md, Data: data})
 }
 
 func queryV(v primitive.ProtocolVersion, tag string) *frame.Frame {
